@@ -46,6 +46,9 @@ def item_comp(t):
             if is_call(x[1], 'next') and x[3] == 'Some':
                 return tuple(reversed(idx))
             return None
+        elif x == ('elem',):
+            # the element handed to a filter / for_each closure: the (&key, &value) pair itself
+            return (0,) + tuple(reversed(idx))
         else:
             return None
     return None
@@ -252,12 +255,88 @@ def r12(facts, res):
     res.floor(R, 'expansion paths of the closure loop', n, 2)
 
 
+class _Round:
+    """one element of `items.iter().filter(P).for_each(F)` seen as one round of the item loop"""
+    def __init__(self, conds, events):
+        self.conds, self.events, self.end = conds, events, ('loop', 0)
+
+
+def goto_adaptor_rounds(facts, b):
+    """Itemset::goto written with adaptors: the rounds of `self.items.iter().filter(P).for_each(F)`.  P's paths give the conditions
+    under which an element is carried over (a non-constant answer is split into its two truth values); F's paths give what is done
+    with it.  The element is the term ('elem',) in both."""
+    fe = [(bb, t) for bb, t in b.calls_named('for_each') if len(t['args']) == 2]
+    fl = [(bb, t) for bb, t in b.calls_named('filter') if len(t['args']) == 2]
+    if len(fe) != 1 or len(fl) != 1 or not b.dominates(fl[0][0], fe[0][0]):
+        return []
+    def closure_of(t):
+        l = op_local(t['args'][1])
+        for _bb, kind, rv in b.defs().get(l, ()):
+            if kind == 'stmt' and 'agg' in rv and isinstance(rv['agg'], dict) and 'closure' in rv['agg']:
+                caps = None
+                return facts.bodies.get(rv['agg']['closure']), l
+        return None, None
+    # evaluate both closures in the caller's frame so that captured values (grm, sym, the new item set) are the caller's terms
+    w = Walker(b, facts, max_paths=64)
+    ps = [p for p in w.run(0) if any(e[0] == 'call' and e[1] == fe[0][0] for e in p.events)]
+    if len(ps) != 1:
+        return []
+    e_fe = [e for e in ps[0].events if e[0] == 'call' and e[1] == fe[0][0]][0]
+    recv, F = e_fe[3][0], e_fe[3][1]
+    flt = [x for x in subterms(recv) if isinstance(x, tuple) and x and x[0] == 'call' and x[1].endswith('::filter') and len(x[2]) == 2]
+    if len(flt) != 1 or F[0] != 'closure' or flt[0][2][1][0] != 'closure':
+        return []
+    P = flt[0][2][1]
+    elem = ('elem',)
+    pa = w.closure_alternatives(P, [('ref', elem)])
+    fa = w.closure_alternatives(F, [elem])
+    if pa is None:
+        return []
+    if fa is None:
+        # F is impure by design (it adds to the new item set): walk it directly and substitute by hand
+        fb = facts.bodies.get(F[1])
+        if fb is None or fb.loops():
+            return []
+        fa = []
+        for p in Walker(fb, facts, max_paths=16).run():
+            if p.end[0] != 'return':
+                return []
+            amap = {('param', 2): elem}
+            fa.append(([(subst_term(c, amap, F[2]), v) for c, v in p.conds],
+                       [('call', None, e[2], tuple(subst_term(a, amap, F[2]) for a in e[3]), None, subst_term(e[5], amap, F[2]), None) for e in p.events if e[0] == 'call'], None))
+    rounds = []
+    for cs, es, r in pa:
+        outcomes = []
+        if is_const(r):
+            outcomes.append((cs, bool(r[1])))
+        else:
+            t, flip = r, False
+            while True:
+                if t[0] == 'un' and t[1] == 'Not':
+                    t, flip = t[2], not flip
+                elif t[0] == 'bin' and t[1] == 'Ne':
+                    t, flip = simp(('bin', 'Eq', t[2], t[3])), not flip
+                else:
+                    break
+            outcomes.append((cs + [(t, 0 if flip else 1)], True))
+            outcomes.append((cs + [(t, 1 if flip else 0)], False))
+        for conds, passed in outcomes:
+            if not passed:
+                rounds.append(_Round(conds, []))
+            else:
+                for cs2, es2, _r in fa:
+                    rounds.append(_Round(conds + cs2, es + es2))
+    return rounds
+
+
 def r13(facts, res):
     R = 'R1.3'
     b = one_fn(facts, R, res, 'lrtable::itemset::Itemset::goto')
     if b is None:
         return
     ps = [p for p in Walker(b, facts, max_paths=256).run(0) if p.end[0] == 'loop']
+    if not ps:
+        ps = goto_adaptor_rounds(facts, b)
     if not ps:
         res.lost(R, 'no cycle through the item loop of Itemset::goto')
         return
